@@ -16,3 +16,12 @@ open IrVerif.AtomicSave
 #print axioms C08_unload_fs_frame
 #print axioms C08_unload_exception
 #print axioms C08_unload_exception_multi
+#print axioms C08_destination_entry
+#print axioms C08_symlink_kept
+#print axioms C08_crash_links
+#print axioms C08_exception_links
+#print axioms C08_invalidate_iff_links
+#print axioms C08_parallel_language
+#print axioms C08_crash_schedule
+#print axioms C08_exception_schedule
+#print axioms C08_sharded_crash
